@@ -240,9 +240,12 @@ package mapping
 // required fields: a field of a scalar kind (anything but array, map, slice, struct - behind any number of pointers) that
 // was not supplied, has no default and is not being default-filled is accepted only if it is optional; with a default,
 // exactly the declared default text is what gets set
+// Deref follows pointer types to the end: what comes back is never a pointer type (any number of levels)
 //@ func Deref
-//@   trusted
+//@   property C08 C17
 //@   pure
+//@   ensures result.Kind() != reflect.Ptr
+//@   loop 0: invariant true
 //@   modifies nothing
 //@ func newInitError
 //@   property C08
